@@ -15,7 +15,74 @@ def post(t, op, st):
     return ledger.post(t, op, st, {PROP})
 
 
+def replay_case(item):
+    """ReplayTransactions over a blotter with several fills per security and step (intraday stamps, a
+    round trip inside one step): each fill is one trade - its own outlay q x p x multiplier and its own
+    commission at (q, p x multiplier) - reconciled per date against the blotter itself"""
+    import pandas as pd
+
+    from .. import ref, rt
+
+    bt = rt.bt()
+    feename, mult, nested = item
+    fee = T.fee_fn(feename) or (lambda q, p: 0.0)
+    idx = pd.bdate_range("2020-01-06", periods=6)
+    data = pd.DataFrame({"a": [4.0, 2.0, 8.0, 4.0, 2.0, 4.0], "b": [1.0, 2.0, 0.5, 1.0, 4.0, 2.0]}, index=idx, dtype=float)
+    fills = [
+        (idx[1] - pd.Timedelta(hours=6), "a", 8.0, 2.25), (idx[1] - pd.Timedelta(hours=2), "a", 4.0, 2.0), (idx[1], "b", -6.0, 2.0),
+        (idx[2] - pd.Timedelta(hours=5), "a", 4.0, 7.5), (idx[2] - pd.Timedelta(hours=1), "a", -4.0, 8.25),  # a round trip inside one step
+        (idx[3], "b", 2.0, 1.0), (idx[3] - pd.Timedelta(hours=3), "b", 2.0, 1.25), (idx[3] - pd.Timedelta(hours=4), "a", -12.0, 4.0),
+        (idx[5] - pd.Timedelta(hours=1), "b", 2.0, 2.5), (idx[5], "b", -1.0, 2.0),
+    ]
+    tx = pd.DataFrame({"quantity": [f[2] for f in fills], "price": [f[3] for f in fills]}, index=pd.MultiIndex.from_tuples([(f[0], f[1]) for f in fills], names=["Date", "Security"]))
+    kids = [bt.Security("a", multiplier=mult), bt.Security("b")]
+    if nested:
+        s = bt.Strategy("r", [bt.algos.RunOnce(), bt.algos.WeighSpecified(s=0.5), bt.algos.Rebalance()], [bt.Strategy("s", [bt.algos.ReplayTransactions("tx")], kids)])
+    else:
+        s = bt.Strategy("r", [bt.algos.ReplayTransactions("tx")], kids)
+    b = bt.Backtest(s, data, initial_capital=4096.0, commissions=T.fee_fn(feename), integer_positions=False, progress_bar=False, additional_data={"tx": tx, "bidoffer": pd.DataFrame(0.0, index=idx, columns=["a", "b"])})
+    viols = []
+    try:
+        b.run()
+    except Exception as e:
+        if rt.classify(e) == "guard":
+            return (0, [])
+        return (0, [{"rule": "crash", "observed": rt.describe(e)}])
+    owner = b.strategy["s"] if nested else b.strategy
+    m = {"a": float(mult), "b": 1.0}
+    labels = list(owner.values.index)
+    n = 0
+    for i in range(1, len(labels)):
+        lo, hi = labels[i - 1], labels[i]
+        day = [f for f in fills if lo < f[0] <= hi]
+        exp_fee = sum(fee(q, p * m[k]) for _, k, q, p in day)
+        exp_out = {k: sum(q * p * m[k] for _, k2, q, p in day if k2 == k) for k in ("a", "b")}
+        exp_pos = {k: sum(q for _, k2, q, p in day if k2 == k) for k in ("a", "b")}
+        got_fee = float(owner.fees.iloc[i])
+        n += 1
+        if not ref.near(got_fee, exp_fee, 1.0):
+            viols.append({"rule": "replayed_fills_fees", "expected": {"date": str(hi), "fees": exp_fee, "fills": [(k, q, p) for _, k, q, p in day]}, "observed": got_fee})
+        for k in ("a", "b"):
+            sec = owner[k]
+            go = float(sec.outlays.iloc[i])
+            gp = float(sec.positions.iloc[i]) - float(sec.positions.iloc[i - 1])
+            if not ref.near(go, exp_out[k], 1.0):
+                viols.append({"rule": "replayed_fills_outlay", "expected": {"date": str(hi), "security": k, "outlay": exp_out[k]}, "observed": go})
+            if not ref.near(gp, exp_pos[k], 1.0):
+                viols.append({"rule": "replayed_fills_position", "expected": {"date": str(hi), "security": k, "position_change": exp_pos[k]}, "observed": gp})
+        flow = float(owner.flows.iloc[i])
+        dc = float(owner.cash.iloc[i]) - float(owner.cash.iloc[i - 1])
+        exp_dc = flow - sum(exp_out.values()) - exp_fee
+        if not ref.near(dc, exp_dc, 1.0):
+            viols.append({"rule": "replayed_fills_cash", "expected": {"date": str(hi), "cash_change": exp_dc}, "observed": dc})
+        if viols:
+            break
+    return (n, viols[:4])
+
+
 def replay(case):
+    if case.get("driver") == "replaytx":
+        return replay_case(tuple(case["item"]))[1]
     if case.get("driver") in ("run", "scaled"):
         from .. import runcheck
 
@@ -27,3 +94,12 @@ def run(ctx):
     from . import _ledger_run
 
     _ledger_run.run(ctx, MOD, PROP)
+    items = [(fe, mult, nested) for fe in (None, "flat", "maxflat", "pershare", "rebate", "selllevy") for mult in (1, 2) for nested in (False, True)]
+    for kind in ["py"] if ctx.tier == "quick" else ["py", "cy"]:
+        for item, (n, viols) in ctx.run(kind, MOD, "replay_case", items, chunksize=2):
+            ctx.add(states=1, transitions=n, traces_validated_against_impl=n, evaluations=n)
+            ctx.nontrivial_count += 1 if n else 0
+            for v in viols:
+                ctx.violation(dict(v, build=kind, module=MOD, case={"driver": "replaytx", "item": list(item)}))
+    ctx.bounds["replayed_blotters"] = len(items)
+    ctx.rule += "; ReplayTransactions over a blotter with several fills per security and step x fee family x multiplier x flat / nested owner"
